@@ -146,12 +146,12 @@ func (e *env) query(src string, par int) (rows []string, err error) {
 }
 
 // gated runs src at parallelism par with the leg scheduler following schedule.
-func (e *env) gated(src string, par int, slicer bool, schedule []int) ([]string, []pullEvent, error) {
+func (e *env) gated(src string, par int, slicer bool, schedule []int, freshSel int) ([]string, []pullEvent, error) {
 	site := "meta.Lister.Pull.enter"
 	if slicer {
 		site = "meta.Slicer.Pull.enter"
 	}
-	g := newGate(site, schedule)
+	g := newGate(site, schedule, freshSel)
 	g.start()
 	rows, err := e.query(src, par)
 	ev, gerr := g.finish()
@@ -327,6 +327,11 @@ func (e *env) realPlan(seq dag.Seq) (planJ, []string, error) {
 		return pl, nil, fmt.Errorf("no merge/combine after the scatter: %s", zfmt.DAG(seq))
 	}
 	pl.Tail = e.tokens(seq[i:])
+	// the partials-in half of `count() by k:=bucket(k,2)` groups the partials by the key the
+	// legs computed and prints as `count() by k:=k`: name it after the operator it is half of
+	if n := len(pl.Legs); n > 0 && pl.Legs[n-1] == "AB:out" && len(pl.Tail) > 0 && pl.Tail[0] == "AK:in" {
+		pl.Tail[0] = "AB:in"
+	}
 	return pl, tags, nil
 }
 
